@@ -23,6 +23,7 @@ def run(ctx):
     # shared clauses: a client's other rows survive a write (no second uniqueness constraint); every statement is understood
     ctx.include("C01", rules=("R0", "R1", "R2", "R7", "R6", "R3"))
     ctx.include("C13", rules=("R6",))      # the address acknowledged is the address recorded
+    ctx.include("C18", rules=("R7",))      # the pool remembers nothing but the rows: no memo of "this pool is exhausted"
     ctx.include("C13", rules=("R5",))      # ... and it is acknowledged: once the pool has chosen (the holder's own address), no refusal
     producers = {fid for fid, sig in P.sigs.items() if _is_lease_result(sig_output(sig)) and fid in P.bodies}
     own_sites = []  # (body, bb, site, where)
